@@ -41,7 +41,7 @@ def runCase (j : Json) : Except String Json := do
   | some w =>
     let ops ← (← w.getArr?).toList.mapM fun o => do
       match (← o.getStr?) with
-      | "add" => pure WOp.add | "done" => pure WOp.done | "poll" => pure WOp.poll
+      | "add" => pure WOp.add | "done" => pure WOp.done | "drop" => pure WOp.done | "poll" => pure WOp.poll
       | x => throw s!"unmodelled op {x}"
     return Json.mkObj [("id", j.getObjValD "id"), ("model", Json.mkObj [("polls", Json.arr ((wrun 0 ops).map Json.bool).toArray)])]
   | none =>
